@@ -12,7 +12,7 @@ def sig(s, trace, why):
 def run(tier, chk):
     wd = vlib.workdir("C10")
     scns = common.gen_scenarios(chk, wd, "C10_Gen", cfg_text=f'SPECIFICATION Spec\nCONSTANT Tier = "{tier}"\nINVARIANT Emit\nCHECK_DEADLOCK FALSE\n', workers=4)
-    common.run_sim(chk, wd, scns, "C10_Trace", shards=8, sig_of=sig, schedules=["hi"] if tier == "quick" else ["hi", "rand:1", "rand:2"])
+    common.run_sim(chk, wd, scns, "C10_Trace", shards=8, sig_of=sig)
     chk.exhaustive = True
     chk.distinct_nontrivial = len(scns)
     chk.rule = ("receiving: configured limits (thorough: 207, 208, 256, 300, 500, sweeps L-3..L+3; plus 2^62-1) x message sizes sweeping L-2..L+2 for request heads, response heads, one-field and three-field trailers, both roles, peer limit "
